@@ -199,11 +199,20 @@ def byte0 (l : Layer) : UInt8 :=
   u8 (((l.version % 256) <<< 5) % 256 ||| 0x10 ||| (if l.extensionHeaderFlag then 0x04 else 0)
         ||| (if l.sequenceNumberFlag then 0x02 else 0) ||| (if l.npduFlag then 0x01 else 0))
 
+/-- `g.ExtensionHeaderFlag = true` at the top of every loop iteration: the receiver once the loop
+    over a non-empty header list has started. -/
+def withFlag (l : Layer) : Layer :=
+  { l with extensionHeaderFlag := l.extensionHeaderFlag || !l.extensionHeaders.isEmpty }
+
+/-- `if opts.FixLengths { g.MessageLength = uint16(n) }`. -/
+def fixML (l : Layer) (fix : Bool) (n : Nat) : Layer :=
+  if fix then { l with messageLength := n % 65536 } else l
+
 /-- `(*GTPv1U).SerializeTo(b, opts)`; ComputeChecksums is not consulted.  `g.ExtensionHeaderFlag = true`
     is assigned at the top of every loop iteration, i.e. whenever there is at least one extension
     header — also when the call then fails on that header. -/
 def serializeTo (l : Layer) (b : SBuf.SBuf) (opts : Opts) : Res (SerOut Layer) := do
-  let l := { l with extensionHeaderFlag := l.extensionHeaderFlag || !l.extensionHeaders.isEmpty }
+  let l := withFlag l
   let r ← putExts b l.extensionHeaders
   if r.err then pure { buf := r.b, layer := l, err := true }
   else do
@@ -215,7 +224,7 @@ def serializeTo (l : Layer) (b : SBuf.SBuf) (opts : Opts) : Res (SerOut Layer) :
                  let c ← put pw.2 c [u8 r.next]                              -- data[3] = nextExtensionHeaderType
                  pure c.b
              else pure r.b)
-    let l := if opts.fixLengths then { l with messageLength := (SBuf.contents b).length % 65536 } else l  -- uint16(len(b.Bytes()))
+    let l := fixML l opts.fixLengths (SBuf.contents b).length                -- if opts.FixLengths { g.MessageLength = uint16(len(b.Bytes())) }
     let pw := SBuf.prepend b Gp.Gen.Tun.gtpMinimumSizeInBytes                -- b.PrependBytes(gtpMinimumSizeInBytes)
     let c ← put pw.2 { b := pw.1, off := 0 } [byte0 l]                       -- data[0]
     let c ← put pw.2 c [u8 l.messageType]                                    -- data[1] = g.MessageType
